@@ -461,3 +461,120 @@ func homeDir() string {
 	}
 	return "/verif"
 }
+
+// errorExits: per decode-side function, the number of return statements that return a non-nil error.
+func (c *Ctx) errorExits(pkgs []string) map[string]int {
+	errT := types.Universe.Lookup("error").Type()
+	out := map[string]int{}
+	for _, short := range pkgs {
+		for _, fn := range c.P.FuncsIn(short) {
+			if fn.Blocks == nil || fn.Parent() != nil {
+				continue
+			}
+			decode := false
+			for _, p := range fn.Params {
+				if isBytes(p.Type()) {
+					decode = true
+				}
+			}
+			res := fn.Signature.Results()
+			if !decode || res.Len() == 0 || !types.Identical(res.At(res.Len()-1).Type(), errT) {
+				continue
+			}
+			n := 0
+			for _, b := range fn.Blocks {
+				if ret, ok := b.Instrs[len(b.Instrs)-1].(*ssa.Return); ok && len(ret.Results) > 0 {
+					if k, isK := ret.Results[len(ret.Results)-1].(*ssa.Const); !(isK && k.IsNil()) {
+						n++
+					}
+				}
+			}
+			if n > 0 {
+				out[ir.FuncKey(fn)] = n
+			}
+		}
+	}
+	return out
+}
+
+// ruleErrorExitRatchet: no decode function has lost an error exit.
+func (c *Ctx) ruleErrorExitRatchet(rule string, pkgs []string, baselineFile string, min int) {
+	r := c.R
+	r.Rule(rule, "guard ratchet: the committed baseline records, for every function that takes wire bytes and returns an error, how many of its return statements return a non-nil error. A function that still exists but has fewer error exits than on the reviewed tree has lost a validity check (a guard was deleted or folded into a later, weaker one) — the input that check refused is now accepted or reaches code that assumed it was refused", min)
+	var base map[string]int
+	b, err := os.ReadFile(filepath.Join(homeDir(), baselineFile))
+	if err != nil || json.Unmarshal(b, &base) != nil {
+		r.Undec(rule, "-", "baseline:"+baselineFile, "-", "baseline file missing or unreadable")
+		return
+	}
+	cur := c.errorExits(pkgs)
+	var keys []string
+	for k := range base {
+		keys = append(keys, k)
+	}
+	sort.Strings(keys)
+	for _, fk := range keys {
+		inPkgs := false
+		for _, pk := range pkgs {
+			if strings.Contains(fk, pk+".") {
+				inPkgs = true
+			}
+		}
+		if !inPkgs {
+			continue
+		}
+		n0 := base[fk]
+		cons := fmt.Sprintf("%d error exits", n0)
+		fn := c.P.Func(fk)
+		switch {
+		case fn == nil:
+			r.Add(oblT(rule, fk, cons, "-", "ok", "the function no longer exists: not decided", nil, true))
+		case cur[fk] < n0:
+			r.Bad(rule, fk, cons, c.P.Pos(fn.Pos()), fmt.Sprintf("only %d error exits remain: a check that used to refuse some input was removed", cur[fk]))
+		default:
+			r.Ok(rule, fk, cons, c.P.Pos(fn.Pos()), fmt.Sprintf("%d now", cur[fk]))
+		}
+	}
+}
+
+// ruleNoPrefilledPointers: decode-side slices of pointers/interfaces grow by append.
+func (c *Ctx) ruleNoPrefilledPointers(rule string, pkgs []string, min int) {
+	r := c.R
+	r.Rule(rule, "decode-side code never makes a slice of pointers or interfaces with a non-zero length: such slices are grown with append, so that a decoder which fails half-way leaves only fully decoded elements behind (the UPDATE decoder keeps the attribute of a treat-as-withdraw error, and a nil element panics the first Serialize/String/MarshalJSON)", min)
+	for _, short := range pkgs {
+		for _, fn := range c.P.FuncsIn(short) {
+			n := 0
+			for _, b := range fn.Blocks {
+				for _, in := range b.Instrs {
+					ms, ok := in.(*ssa.MakeSlice)
+					if !ok {
+						continue
+					}
+					el := ms.Type().Underlying().(*types.Slice).Elem()
+					switch el.Underlying().(type) {
+					case *types.Interface, *types.Pointer:
+					default:
+						continue
+					}
+					decode := false
+					for _, p := range ir.Outer(fn).Params {
+						if isBytes(p.Type()) {
+							decode = true
+						}
+					}
+					if !decode {
+						continue
+					}
+					n++
+					fk := ir.OuterKey(fn)
+					cons := fmt.Sprintf("make(%s) #%d", types.TypeString(ms.Type(), func(p *types.Package) string { return p.Name() }), n)
+					if k, ok := ms.Len.(*ssa.Const); ok && k.Int64() == 0 {
+						r.Ok(rule, fk, cons, c.P.InstrPos(ms), "length 0, grown by append")
+					} else {
+						r.Bad(rule, fk, cons, c.P.InstrPos(ms), "the slice is created with its final length and filled by index: an error return in the middle of the fill leaves nil elements in an object that is kept")
+					}
+				}
+			}
+		}
+	}
+}
